@@ -40,11 +40,14 @@ func init() {
 		FloorQuick:  7000,
 		FloorThor:   20000,
 		Run:         runC09,
-		TimeoutQ:    15 * time.Minute,
-		LevelText:   "Validly signed messages with optional parts missing (unreachable for fuzzers without the IdP key), plus structure/byte mutants and framing attacks, are executed against every consuming entry point under a panic/CPU/allocation sentinel and an error-contract oracle. Held-on-observed; thorough adds far larger samples.",
-		LevelNote:   "recover() catches ordinary panics; fatal runtime errors and watchdog kills are attributed through the per-case journal. Thresholds separate bounded from unbounded behaviour only.",
-		Technique:   "runtime monitoring: panic/CPU/allocation sentinel and error-contract oracle over signed-subset and mutation generators",
-		DesignRef:   "DESIGN.md §5 C09",
+		Post: func(d *core.DriveState) {
+			fuzzStage(d, []string{"FuzzSPResponse", "FuzzSPArtifactResponse", "FuzzSPLogoutResponse", "FuzzIdPRequest", "FuzzMetadata"}, 120000)
+		},
+		TimeoutQ:  15 * time.Minute,
+		LevelText: "Validly signed messages with optional parts missing (unreachable for fuzzers without the IdP key), plus structure/byte mutants and framing attacks, are executed against every consuming entry point under a panic/CPU/allocation sentinel and an error-contract oracle. Held-on-observed; thorough adds far larger samples.",
+		LevelNote: "recover() catches ordinary panics; fatal runtime errors and watchdog kills are attributed through the per-case journal. Thresholds separate bounded from unbounded behaviour only.",
+		Technique: "runtime monitoring: panic/CPU/allocation sentinel and error-contract oracle over signed-subset and mutation generators",
+		DesignRef: "DESIGN.md §5 C09",
 	})
 }
 
